@@ -80,8 +80,9 @@ type world struct {
 	removed    map[schema.GroupVersionKind]bool // RemoveInformer was issued for this kind at some point
 }
 
-func newWorld() *world {
-	s := verifsim.New(verifsim.NewScheme())
+func newWorld() *world { return newWorldOn(verifsim.New(verifsim.NewScheme())) }
+
+func newWorldOn(s *verifsim.Sim) *world {
 	y := newSched()
 	fc := newFakeCache(s.Scheme, y)
 	w := &world{sim: s, y: y, cache: fc, hits: &hitLog{}, instances_: map[string][]*fakeController{}, failNext: map[string]bool{}, removed: map[schema.GroupVersionKind]bool{}}
